@@ -351,7 +351,16 @@ class Engine:
             it.run.event('register-module', lineno=getattr(n, 'lineno', None), args=[k, x], index=len(it.run.events))
             return
         self._no(it, n, f'item store on {v!r}')
-    def opaque_iter(self, it, v, n, fr): self._no(it, n, f'iteration over {v!r}')
+    def opaque_iter(self, it, v, n, fr):
+        if getattr(v, 'tag', None) == 'tuple-of-names':
+            # a tuple the generator knows nothing about: some number of arbitrary values
+            k = it.run.nfresh
+            it.run.nfresh += 1
+            ln = z3.Int(f'opaque_len!{k}')
+            it.run.assume(ln >= 0)
+            f = z3.Function(f'opaque_elem!{k}', z3.IntSort(), Val)
+            return ('sym', ln, lambda i: SV(f(i)), None)
+        self._no(it, n, f'iteration over {v!r}')
     def opaque_len(self, it, v, n): self._no(it, n, f'len of {v!r}')
     def opaque_isinstance(self, it, v, nm, n): return z3.BoolVal(False)
     def call_opaque(self, it, fv, a, kw, n, fr):
